@@ -22,7 +22,7 @@ type Gen struct {
 var allFeatures = []string{
 	"interp", "if", "for", "formap", "attrs", "style", "show", "vhtml", "vtext", "pipes", "funcs", "expr",
 	"include", "slots", "scoped", "shorthand", "once", "tplvar", "filefn", "less", "frontmatter", "layout",
-	"baselayout", "vpre", "script", "fresh", "nestedfor", "fmcomp", "comment", "config", "lessimport", "combo",
+	"baselayout", "vpre", "script", "fresh", "nestedfor", "fmcomp", "comment", "config", "lessimport", "combo", "scale",
 }
 
 func NewGen(r *Rand) *Gen {
@@ -302,6 +302,31 @@ func (g *Gen) snippet() string {
 			}
 			tag := Pick(r, []string{"div", "p", "span", "section"})
 			return "<" + tag + " " + strings.Join(attrs, " ") + ">default <b>text</b> {{ name }}</" + tag + ">"
+		}},
+		{"scale", func() string {
+			// boundaries and sizes that small programs never reach: element nesting around depth 128 (indentation
+			// column 256), a slot that hands ten props to its content (a pooled scope beyond eight entries), unbound
+			// names that only a leaked scope would bind, a wide attribute list
+			switch r.Intn(5) {
+			case 0:
+				n := Pick(r, []int{126, 127, 128, 129, 140})
+				return strings.Repeat("<div>", n) + "<i>{{ name }}</i>" + strings.Repeat("</div>", n)
+			case 1:
+				comp := "components/ListWide.vuego"
+				if !g.has(comp) {
+					g.put(comp, `<ul class="wide"><li v-for="(index, item) in items"><slot :item="item" :index="index" :pa="1" :pb="2" :pc="3" :pd="4" :pe="5" :pf="6" :pg="7" :ph="8" :pi="name"></slot></li></ul>`)
+				}
+				return `<template include="` + comp + `" :items="items"><template v-slot="sp">{{ sp.index }}={{ sp.item.label }}/{{ sp.ph }}{{ sp.pi }}</template></template>`
+			case 2:
+				return `<p class="unbound">[{{ item }}|{{ index }}|{{ sp }}|{{ pa }}|{{ ph }}|{{ pi }}|{{ x }}|{{ label }}]</p>`
+			case 3:
+				var at []string
+				for i := 0; i < 14; i++ {
+					at = append(at, fmt.Sprintf(`:data-a%d="n + %d"`, i, i))
+				}
+				return `<div ` + strings.Join(at, " ") + `>wide</div>`
+			}
+			return `<ul><li v-for="(i, item) in items" :id="item.id"><span v-for="t in item.tags">{{ i }}:{{ t }}</span></li></ul>`
 		}},
 		{"lessimport", func() string {
 			g.Eng.Less = true
